@@ -159,6 +159,26 @@ def check(spec):
             viol.append({'id': 'near-field-differs-from-the-independent-integral-of-currents-and-charges',
                          'point': [float(x) for x in cp], 'relative_error_E_H': [float(ee), float(eh)]})
             break
+    # a second solve on the SAME object at the same frequency (a load added in between), then a request at a given power
+    # level: both fields are scaled with the net input power of the currents just solved
+    if not viol:
+        from mininec.mininec import Impedance_Load
+        m.register_load(Impedance_Load(150 + 400j), (spec['feed'] + 2) % len(m.pulses))
+        m.compute()
+        cps = close_points(m, spec, random.Random(7))
+        if cps:
+            cp = cps[-1]
+            pw_req = 50.0
+            m.compute_near_field(list(cp), [1, 1, 1], [1, 1, 1], pwr=pw_req)
+            e, h = np.array(m.e_field[0]), np.array(m.h_field[0])
+            pnet = sum(0.5 * (s_.voltage * np.conj(m.current[s_.idx])).real for s_ in m.sources)
+            Er, Hr = reference_fields(m, cp)
+            sc = np.sqrt(pw_req / pnet)
+            ee = np.linalg.norm(e - Er * sc) / np.linalg.norm(Er * sc)
+            eh = np.linalg.norm(h - Hr * sc) / np.linalg.norm(Hr * sc)
+            if ee > 0.01 or eh > 0.01:
+                viol.append({'id': 'near-field-at-a-power-level-after-a-second-solve-is-not-scaled-with-the-new-input-power',
+                             'point': [float(x) for x in cp], 'relative_error_E_H': [float(ee), float(eh)]})
     # the same request on an object that has computed another frequency before must give the same field (the far-field
     # comparison above is made on a fresh object only; every frequency of a sweep is entitled to it)
     if not viol:
